@@ -49,6 +49,25 @@ class EvalMixin:
                 if isinstance(a, Loc) and a.arrlen is None:
                     return (self.load_loc(env['st'], a, facts=False), gt)
                 return (a, '*' + gt)
+        if '.' in name:
+            # a package-qualified global of another package (e.g. context.DeadlineExceeded) that the code refers to
+            if not hasattr(self, '_extglobals'):
+                self._extglobals = {}
+                def scan(x):
+                    if isinstance(x, dict):
+                        if x.get('k') == 'global' and 'elem' in x: self._extglobals[self.shortfn(x['name'])] = (x['name'], x['elem'])
+                        else:
+                            for v in x.values(): scan(v)
+                    elif isinstance(x, list):
+                        for v in x: scan(v)
+                for f in self.p.funcs.values():
+                    for b in f.blocks: scan(b['instrs'])
+            eg = self._extglobals.get(name)
+            if eg is not None:
+                a = self.global_addr(eg[0], eg[1])
+                if isinstance(a, Loc) and a.arrlen is None:
+                    return (self.load_loc(env['st'], a, facts=False), eg[1])
+                return (a, '*' + eg[1])
         raise Unsupported('unknown identifier %r in contract' % name)
 
     def const(self, name):
@@ -102,6 +121,11 @@ class EvalMixin:
         if k == 'str': return (self.strc(a[1]), 'string')
         if k == 'id': return self.lookup(a[1], env)
         if k == 'field':
+            if a[1][0] == 'id' and a[1][1] not in env['vars'] and not (env.get('fr') is not None and a[1][1] in env['fr'].names):
+                try:
+                    return self.lookup(a[1][1] + '.' + a[2], env)   # pkg.Global of another package
+                except Unsupported:
+                    pass
             v, t = self.ev(a[1], env)
             return self.ev_field(v, t, a[2], env)
         if k == 'comp':
